@@ -61,8 +61,11 @@ def generate(tape, tier="quick"):
     b = dict(a) if cg == "same" else (relayout(tape, a) if cg == "relayout" else None)
     ma = MGrid(a)
     shape = ma.data_shape()
-    pm = tape.weighted([("fixed", 5), ("FLEX", 2), ("NONE", 2)])
-    cm = tape.weighted([("fixed_equal", 4), ("fixed_diff", 3), ("FLEX", 2), ("NONE", 2), ("same_object", 2)])
+    # "nomask" (numpy's nomask) and "all_false" (an explicit array without any masked cell) are fixed masks that mask
+    # nothing: they equal each other and any fixed mask without masked cells
+    pm = tape.weighted([("fixed", 6), ("FLEX", 2), ("NONE", 2), ("nomask", 1), ("all_false", 1)])
+    cm = tape.weighted([("fixed_equal", 5), ("fixed_diff", 3), ("FLEX", 2), ("NONE", 2), ("same_object", 2),
+                        ("nomask", 1), ("all_false", 1)])
     pbits = gen_mask(tape, shape, "partial")
     return {"engine": "A", "a": a, "b": b, "cgrid": cg, "pmask": pm, "cmask": cm, "pbits": pbits,
             "flip": tape.draw(max(1, len(pbits)))}
@@ -146,7 +149,11 @@ def run_accept(sc):
     ma = MGrid(sc["a"])
     shape = ma.data_shape()
     pbits = np.array(sc["pbits"], dtype=bool).reshape(shape)
-    pmask = {"FLEX": Mask.FLEX, "NONE": Mask.NONE, "fixed": pbits}[sc["pmask"]]
+    if sc["pmask"] in ("nomask", "all_false"):
+        pbits = np.zeros(shape, dtype=bool)          # the producer masks no cell
+    pmask = {"FLEX": Mask.FLEX, "NONE": Mask.NONE, "fixed": pbits, "nomask": np.ma.nomask,
+             "all_false": pbits}[sc["pmask"]]
+    p_fixed = sc["pmask"] in ("fixed", "nomask", "all_false")
     gb = make_grid(sc["b"]) if sc["b"] is not None else None
     mb = MGrid(sc["b"]) if sc["b"] is not None else ma
     # consumer mask: the producer's mask expressed in the consumer's layout (same physical cells), or with one
@@ -162,21 +169,28 @@ def run_accept(sc):
     if sc["cmask"] == "same_object":
         # the very same array object on both ends (e.g. one module-level mask reused for two grids): it only
         # describes the same cells if the consumer's layout maps it onto itself
-        if sc["pmask"] != "fixed" or mb.data_shape() != shape:
+        if not p_fixed or mb.data_shape() != shape:
             sc = dict(sc, cmask="fixed_equal")
         else:
             cbits_same = pbits
+    czero = np.zeros(mb.data_shape(), dtype=bool)
     cmask = {"FLEX": Mask.FLEX, "NONE": Mask.NONE, "fixed_equal": cbits, "fixed_diff": cdiff,
-             "same_object": pbits}[sc["cmask"]]
+             "same_object": pbits, "nomask": np.ma.nomask, "all_false": czero}[sc["cmask"]]
     # expected outcome from the documented rules
     if sc["cmask"] == "FLEX":
         want = True
     elif sc["cmask"] == "NONE":
+        if sc["pmask"] in ("nomask", "all_false"):
+            return viol      # is a producer with a fixed mask that masks nothing "unmasked"? the rules do not say
         want = sc["pmask"] == "NONE"
     elif sc["cmask"] == "same_object":
         want = bool(np.array_equal(pbits, cbits))
+    elif sc["cmask"] in ("nomask", "all_false"):
+        if sc["pmask"] == "NONE":
+            return viol      # same question the other way round
+        want = p_fixed and not cbits.any()
     else:
-        want = sc["pmask"] == "fixed" and sc["cmask"] == "fixed_equal"
+        want = p_fixed and sc["cmask"] == "fixed_equal"
     out = Output(name="src", info=Info(time=dt(0), grid=ga, units="m", mask=pmask))
     inp = Input(name="dst", info=Info(time=dt(0), grid=gb, units="m", mask=cmask))
     out >> inp
@@ -222,7 +236,7 @@ def execute(sc):
         cls = "R:" + sc["mask_kind"]
     else:
         viol = run_accept(sc)
-        nt = sc["pmask"] == "fixed" and sc["cmask"].startswith("fixed")
+        nt = sc["pmask"] in ("fixed", "nomask", "all_false") and (sc["cmask"].startswith("fixed") or sc["cmask"] in ("nomask", "all_false"))
         cls = f"A:{sc['cmask']}<-{sc['pmask']}:{sc['cgrid']}"
     return {"violations": viol, "digest": digest_of(sc), "nontrivial": nt, "probes": {}, "faults": {},
             "sig": cls, "cls": cls, "sim_hours": 0, "outcome": {"class": cls}}
